@@ -38,11 +38,6 @@ def replay_edge(j, e, sigma, classes=None):
         feat = "angle(%s,%s)->%s;sigma=%g" % (gl.angle_band(pre), gl.angle_band(g) if g else "-",
                                              gl.angle_band(post), sigma)
         detail = {"kind": "edge", "cls": cname, "sigma": sigma, "pre": pre, "call": call, "post": post}
-        if cname in gl.NO_POW and "pi" in (gl.angle_band(pre), gl.angle_band(g) if g else "-",
-                                           gl.angle_band(post)):
-            # the twist of a half turn is not unique and log there is judged by C03
-            j.skip("twist route through an exact half turn (log non-unique): left to C03")
-            continue
         try:
             X = gamma.build(cname, pre, sigma)
             Y = gl.apply(cname, X, call, sigma)
@@ -72,9 +67,6 @@ def replay_tree(j, h, sigma):
             call, post = step["call"], step["post"]
             g = call.get("g")
             if not gl.usable(cname, cur, g, post) or (cname in gl.NO_POW and call["op"] == "pow"):
-                break
-            if cname in gl.NO_POW and "pi" in (gl.angle_band(cur), gl.angle_band(post),
-                                               gl.angle_band(g) if g else "-"):
                 break
             site = "%s.%s" % (cname, call["op"])
             feat = "tree;angle(%s)->%s;sigma=%g" % (gl.angle_band(cur), gl.angle_band(post), sigma)
@@ -167,9 +159,6 @@ def law_instances(j, rng, n, dim):
             scale = max(1.0, ma, mb, mc) if has_t else 1.0
             tol = gl.TOL[cname] * scale
             twist = cname in gl.NO_POW
-            if twist and any(abs(x - math.pi) < 1e-5 for x in (aa, ab, ac)):
-                j.skip("twist laws within 1e-5 of a half turn: log accuracy there is C03's subject")
-                continue
             feat = "angles(%s);t=%s" % (",".join(sorted({band(x) for x in (aa, ab, ac)})),
                                         gl.mag_band(max(ma, mb, mc)) if has_t else "-")
             try:
